@@ -460,7 +460,7 @@ class Interp:
                 if isinstance(i_, int) and 0 <= i_ < len(o_):
                     return o_[i_]
                 raise OutOfFragment('array index %r out of range (size %d) at %s' % (i_, len(o_), fn.loc(n)))
-        if k == 'CXXMemberCallExpr' and 'obj' in n and cs.startswith(('std::vector::', 'std::__shared_ptr::', 'std::shared_ptr::', 'std::unique_ptr::', 'std::basic_string::', 'std::__cxx11::basic_string::', 'std::basic_string_view::')):
+        if k == 'CXXMemberCallExpr' and 'obj' in n and cs.startswith(('std::vector::', 'std::list::', 'std::__cxx11::list::', 'std::__shared_ptr::', 'std::shared_ptr::', 'std::unique_ptr::', 'std::basic_string::', 'std::__cxx11::basic_string::', 'std::basic_string_view::')):
             if cs.startswith(('std::__shared_ptr::', 'std::shared_ptr::', 'std::unique_ptr::')):
                 o = self.eval(fn, S[n['obj']], env)
                 if last == 'get':
@@ -576,6 +576,21 @@ class Interp:
                 return ('rit', o, 0)              # position counted from the back
             if last in ('rend', 'crend'):
                 return ('rit', o, len(o))
+            if last == 'insert' and len(args) == 2 and cs.startswith(('std::list::', 'std::__cxx11::list::')):
+                pos, v = (self.eval(fn, S[x], env) for x in args)
+                if isinstance(pos, tuple) and len(pos) == 3 and pos[0] == 'it' and pos[1] is o and 0 <= pos[2] <= len(o):
+                    o.insert(pos[2], v)
+                    return ('it', o, pos[2])
+                raise OutOfFragment('list::insert form at %s' % fn.loc(n))
+            if last == 'splice' and len(args) == 3:
+                pos, other, what = (self.eval(fn, S[x], env) for x in args)         # std::list::splice(pos, same list, element)
+                if other is o and isinstance(pos, tuple) and isinstance(what, tuple) and pos[0] == 'it' and what[0] == 'it' and pos[1] is o and what[1] is o and 0 <= what[2] < len(o) and 0 <= pos[2] <= len(o):
+                    if pos[2] in (what[2], what[2] + 1):
+                        return None
+                    e_ = o.pop(what[2])
+                    o.insert(pos[2] - 1 if pos[2] > what[2] else pos[2], e_)
+                    return None
+                raise OutOfFragment('list::splice form at %s' % fn.loc(n))
             if last == 'insert' and len(args) == 3:
                 pos, a, b = (self.eval(fn, S[x], env) for x in args)
                 if pos[0] == 'it' and pos[1] is o and a[0] == 'it' and b[0] == 'it' and a[1] is b[1]:
@@ -645,6 +660,10 @@ class Interp:
                     snap = (set(o), self.set_order(o))
                     snaps[id(o)] = snap
                 return ('it', snap[1], 0 if 'begin' in cs else len(snap[1]))
+            if cs in ('std::empty', 'std::size') and isinstance(o, Obj) and o.get('__cls__') and 'elems' not in o:
+                m_ = self.db.fn('%s::%s' % (o['__cls__'], cs.split('::')[-1]), required=False)      # std::empty(x) is x.empty() for a class that has one
+                if m_ is not None:
+                    return self.call(m_, [], o)
             if cs in ('std::next', 'std::prev') and isinstance(o, tuple) and o[0] == 'it':
                 d_ = self.eval(fn, S[n['args'][1]], env) if len(n['args']) > 1 else 1
                 p_ = o[2] + (d_ if cs == 'std::next' else -d_)
@@ -672,8 +691,18 @@ class Interp:
                     return o
                 raise OutOfFragment('std::get<%s> on a variant that holds %s: throws std::bad_variant_access at %s' % (n['targs'][0], o['__cls__'], fn.loc(n)))
             return NOT_HANDLED
+        if k == 'CallExpr' and cs == 'std::erase_if' and len(n.get('args', [])) == 2:
+            o, lam = (self.eval(fn, S[a], env) for a in n['args'])
+            if isinstance(o, list):
+                keep = [e_ for e_ in list(o) if not self.call_lambda(lam, [e_])]
+                gone = len(o) - len(keep)
+                o[:] = keep
+                return gone
+            raise OutOfFragment('std::erase_if form at %s' % fn.loc(n))
         if k == 'CallExpr' and cs in ('std::find_if', 'std::all_of', 'std::any_of', 'std::none_of', 'std::for_each', 'std::count_if') and len(n.get('args', [])) == 3:
             b, e, lam = (self.eval(fn, S[a], env) for a in n['args'])
+            if isinstance(b, Obj) and isinstance(e, Obj) and isinstance(b.get('it'), tuple) and isinstance(e.get('it'), tuple):
+                b, e = b['it'], e['it']         # an iterator adaptor over a standard container (ccl ListIterator): the wrapped position
             if isinstance(b, tuple) and isinstance(e, tuple) and b[0] == 'it' and e[0] == 'it' and b[1] is e[1]:
                 hits = 0
                 for i in range(b[2], e[2]):
@@ -689,10 +718,12 @@ class Interp:
                     hits += 1 if r else 0
                 return {'std::find_if': ('it', b[1], e[2]), 'std::all_of': True, 'std::any_of': False, 'std::none_of': True, 'std::for_each': lam, 'std::count_if': hits}[cs]
             raise OutOfFragment('%s form at %s' % (cs, fn.loc(n)))
-        if k == 'CXXOperatorCallExpr' and n.get('op') in ('++', '--') and cs.startswith(('__gnu_cxx::__normal_iterator', 'std::reverse_iterator')) and n.get('args'):
+        if k == 'CXXOperatorCallExpr' and n.get('op') in ('++', '--') and cs.startswith(('__gnu_cxx::__normal_iterator', 'std::reverse_iterator', 'std::_List_const_iterator', 'std::_List_iterator')) and n.get('args'):
             v = self.eval(fn, S[n['args'][0]], env)
             if isinstance(v, tuple) and len(v) == 3 and v[0] in ('it', 'rit'):
                 nv = (v[0], v[1], v[2] + (1 if n['op'] == '++' else -1))
+                if cs.startswith('std::_List_') and not (0 <= nv[2] <= len(v[1])):
+                    raise OutOfFragment('list iterator moved outside [begin, end] (undefined behaviour) at %s' % fn.loc(n))
                 self.assign(fn, S[n['args'][0]], nv, env)
                 return v if len(n['args']) > 1 else nv      # postfix form carries a dummy int argument
             raise OutOfFragment('iterator increment form at %s' % fn.loc(n))
